@@ -1,4 +1,4 @@
-import DcmVerif.Props.SourceStack
+import DcmVerif.Props.Source_data
 import DcmVerif.Props.C02_stack
 import DcmVerif.Props.C02_orient
 import DcmVerif.Props.C02_wrap
